@@ -135,7 +135,7 @@ def _dj_pre(ctx):
         return SKIP
     s, sr = snap.tier_snap(t), snap.tier_snap(ref)
     mon = "dejitter.interval" if s["t"] == "I" else "dejitter.point"
-    if not (snap.wellformed_tier_snap(s) and snap.wellformed_tier_snap(sr)):
+    if not (snap.wellformed_times(s) and snap.wellformed_times(sr)):
         REC.skip(mon, "ill-formed-operand")
         return SKIP
     return (mon, s, sr, D)
@@ -175,7 +175,7 @@ def _al_pre(ctx):
     if not snap.is_tg(tg) or not num(D) or D <= 0:
         return SKIP
     s = snap.tg_snap(tg)
-    if name not in s["keys"] or not all(snap.wellformed_tier_snap(t) for t in s["tiers"]) or s["keys"] != [t["name"] for t in s["tiers"]]:
+    if name not in s["keys"] or not all(snap.wellformed_times(t) for t in s["tiers"]) or s["keys"] != [t["name"] for t in s["tiers"]]:
         REC.skip("align", "outside-domain")
         return SKIP
     sr = s["tiers"][s["keys"].index(name)]
@@ -242,7 +242,7 @@ def _morph_pre(ctx):
     if not (snap.is_tier(t) and snap.is_tier(tgt)):
         return SKIP
     s, st = snap.tier_snap(t), snap.tier_snap(tgt)
-    if s["t"] != "I" or st["t"] != "I" or not (snap.wellformed_tier_snap(s) and snap.wellformed_tier_snap(st)):
+    if s["t"] != "I" or st["t"] != "I" or not (snap.wellformed_times(s) and snap.wellformed_times(st)):
         REC.skip("morph", "outside-domain")
         return SKIP
     sel = None
